@@ -61,7 +61,8 @@ class SimOS:
         self.stats[key] = self.stats.get(key, 0) + 1
 
     def inode_of(self, path):
-        return _os.path.normpath(path)
+        # one file, however it is spelled (relative to the current directory or absolute)
+        return _os.path.normpath(_os.path.join(_os.getcwd(), path))
 
     def _fault(self, site, pid, **kw):
         if self.faults is None:
@@ -99,6 +100,9 @@ class SimOS:
                 raise HarnessCreateMissing(path)
             self.create(path)
             self.k.log('creat', pid, _os.path.basename(path))
+        elif (flags & _os.O_CREAT) and (flags & _os.O_EXCL):
+            # O_CREAT|O_EXCL on a file that exists (somebody created it a moment ago)
+            raise FileExistsError(errno.EEXIST, 'File exists', path)
         table = self.fds.setdefault(pid, {})
         fd = self.first_fd
         while fd in table:
